@@ -467,6 +467,43 @@ def exec_receive(case):
     if case['sizes'] and min(case['sizes']) < 4:
         out.nontrivial = True
         out.label('recv-smaller-than-prefix')
+    if out.failures:
+        return out
+    # the other blocking reader: the database client (Connector.__do) gets
+    # its reply through recv() in the same generated piece sizes
+    import dawgie.db.shelve.comms as comms
+    import dawgie.security as sec
+
+    real_connect = sec.connect
+    try:
+        for n, reply in enumerate(
+                [True, {'k' * (1 + m['pad'] % 300): list(range(m['n']))}]
+                for m in case['msgs']):
+            for obj in reply:
+                class _Reply(FragSocket):
+                    def sendall(self, b):
+                        pass  # the request; the scripted reply follows
+
+                    def close(self):
+                        pass
+
+                rs = _Reply(_frame(obj), case['sizes'])
+                sec.connect = lambda _a, _s=rs: _s
+                try:
+                    got = comms.Connector._Connector__do(
+                        comms.COMMAND(comms.Func.table, None,
+                                      comms.Table.target, None))
+                except Exception as exc:  # pylint: disable=broad-except
+                    out.fail('framing/db-client-reply-differs',
+                             f'sizes={case["sizes"][:8]}: reply {n}: '
+                             f'{type(exc).__name__}: {exc}')
+                    return out
+                if got != obj:
+                    out.fail('framing/db-client-reply-differs',
+                             f'sizes={case["sizes"][:8]}: {got!r:.80}')
+                    return out
+    finally:
+        sec.connect = real_connect
     return out
 
 
